@@ -256,6 +256,44 @@ pub fn run(ctx: &Ctx) -> CheckResult {
         res.absorb(merge_jobs(outs));
     }
 
+    // (a'') flat runs around a reset: v^a, reset, v^b, then a move and two more inputs, for every a and b
+    // up to 2n+2 (run-length counters and "nothing changed" fast paths that outlive the reset)
+    if !res.out.failed() {
+        let mut fl: Vec<Cfg> = vec![];
+        for k in ALL_KINDS {
+            fl.extend(generic_cfgs(k, &[1, 2, 3, 4, 5, 7, 8], &[2, 4]).into_iter().filter(|c| !(c.kind.has_mult() && c.mult == 0.5)));
+        }
+        let outs = par_run(ctx, &fl, |_, cfg| {
+            let mut out = JobOut::default();
+            let n = cfg.max_period();
+            let sym = |x: f64, i: usize| -> Op {
+                if cfg.kind.has_scalar() && !(cfg.kind.bar_native() && i % 2 == 1) {
+                    Op::S(x)
+                } else {
+                    Op::B(Bar { o: x, h: x, l: x, c: x, v: 1.0 })
+                }
+            };
+            for a in 0..=2 * n + 2 {
+                for b in 0..=2 * n + 2 {
+                    let mut ops: Vec<Op> = (0..a).map(|i| sym(0.25, i)).collect();
+                    ops.push(Op::Reset);
+                    ops.extend((0..b).map(|i| sym(0.25, i)));
+                    ops.extend([sym(0.26, 0), sym(0.26, 1), sym(0.25, 0)]);
+                    out.stats.states += 1;
+                    out.stats.traces += 1;
+                    out.stats.transitions += ops.len() as u64;
+                    out.stats.evaluations += 1;
+                    if let Err((step, phase)) = run_total(cfg, &ops, None) {
+                        report(cfg, &ops, step, phase, &mut out, format!("flat run of {} inputs, reset, flat run of {} inputs at the same value, then a one-tick move", a, b));
+                        return out;
+                    }
+                }
+            }
+            out
+        });
+        res.absorb(merge_jobs(outs));
+    }
+
     // (b)+(c) every period 1..=64 (+ sampled large ones): default stream with k deviations at every position
     let mut cursor_rows = vec![];
     if !res.out.failed() {
